@@ -161,6 +161,36 @@ def loopIter {V} (S : Sem V) (body : Nat → V → List V → Option (V × List 
         | none => none
         | some (c', st') => loopIter S body fuel (left.map (· - 1)) (i + 1) c' st'
 
+/-- Trip count of a `Loop`: unbounded when the bound input is absent. -/
+def loopTrip {V} (S : Sem V) (bv : Option V) : Option (Option Nat) :=
+  match bv with
+  | none => some none
+  | some v => (S.natOf v).map some
+
+/-- Initial condition of a `Loop`: true when the condition input is absent. -/
+def loopCond0 {V} (S : Sem V) (cv : Option V) : V :=
+  match cv with
+  | some v => v
+  | none => S.ofBool true
+
+/-- The `Loop` operator given the meaning `body` of its body graph. -/
+def loopResult {V} (S : Sem V) (body : Nat → V → List V → Option (V × List V)) (fuel : Nat)
+    (bv cv : Option V) (st0 : List V) : Option (List V) :=
+  match loopTrip S bv with
+  | none => none
+  | some left => loopIter S body fuel left 0 (loopCond0 S cv) st0
+
+/-- Meaning of a Loop body graph, given the evaluator `ev` of its node list: bind the body inputs
+`(iteration, condition, state…)`, evaluate, read `(condition', state'…)`. -/
+def loopBodyFn {V} (S : Sem V) (ev : Env V → Option (Env V)) (ρ : Env V) (bi bo : List Name) :
+    Nat → V → List V → Option (V × List V) := fun i cnd st =>
+  match ev (ρ.setMany bi (S.ofNat i :: cnd :: st)) with
+  | none => none
+  | some ρ' =>
+    match ρ'.getMany bo with
+    | some (c' :: st') => some (c', st')
+    | _ => none
+
 mutual
 /-- Meaning of one node in environment `ρ` (which includes all outer-scope values): the
 extended environment. -/
@@ -198,24 +228,9 @@ def evalNode {V} (S : Sem V) (fuel : Nat) (ρ : Env V) : Node → Option (Env V)
     | fuel' + 1 =>
       match ρ.getOpt b, ρ.getOpt c, ρ.getMany inits with
       | some bv, some cv, some st0 =>
-        let trip : Option (Option Nat) :=
-          match bv with
-          | none => some none
-          | some v => (S.natOf v).map some
-        match trip with
+        match loopResult S (loopBodyFn S (fun e => evalNodes S fuel' e bn) ρ bi bo) fuel' bv cv st0 with
         | none => none
-        | some left =>
-          let cond0 : V := match cv with | some v => v | none => S.ofBool true
-          let body : Nat → V → List V → Option (V × List V) := fun i cnd st =>
-            match evalNodes S fuel' (ρ.setMany bi (S.ofNat i :: cnd :: st)) bn with
-            | none => none
-            | some ρ' =>
-              match ρ'.getMany bo with
-              | some (c' :: st') => some (c', st')
-              | _ => none
-          match loopIter S body fuel' left 0 cond0 st0 with
-          | none => none
-          | some rs => if rs.length = outs.length then some (ρ.setMany outs rs) else none
+        | some rs => if rs.length = outs.length then some (ρ.setMany outs rs) else none
       | _, _, _ => none
 def evalNodes {V} (S : Sem V) (fuel : Nat) (ρ : Env V) : List Node → Option (Env V)
   | [] => some ρ
